@@ -1177,6 +1177,8 @@ type rzGen struct {
 	ntool     int
 	maxSess   int
 	idReuse   bool // also generate in-request stragglers after a within-session id reuse
+	probes    int
+	stop      bool
 	// coverage of the case
 	cuts, resumes, races int
 }
@@ -1454,9 +1456,11 @@ func (g *rzGen) get(s *rzGSess) string {
 	last := "none"
 	tag := "get-standalone"
 	switch r := g.pick(100); {
-	case r < 62 && g.store:
-		if id, ok := g.issued(s); ok {
+	case r < 62:
+		if id, ok := g.issued(s); ok && g.store {
 			last, tag = id, "get-resume"
+		} else if !g.store && g.chance(15) {
+			last, tag = "t1_0", "get-resume-nostore"
 		}
 	case r < 66:
 		last, tag = "bad", "get-bad"
@@ -1488,7 +1492,12 @@ func (g *rzGen) stepStateful() {
 			return
 		}
 		if len(live) == 0 {
-			// every session is gone: requests to a closed session are answered 404
+			// every session is gone: requests to a closed session are answered 404 (a few probes, then stop)
+			g.probes++
+			if g.probes > 2 {
+				g.stop = true
+				return
+			}
 			s := g.sess[g.pick(len(g.sess))]
 			if g.chance(50) {
 				g.do(fmt.Sprintf("get %s hv=c last=none", s.name), "gone-404")
@@ -1708,7 +1717,7 @@ func rzGenCase(t *testing.T, out *verifOut, c int, prop string) (cuts, resumes, 
 		g.h = rzNewHarness(t, g.stateless, g.jsonMode, g.store)
 		out.line(cs, fmt.Sprintf("cfg %s %s %s", mode, resp, st), "ok", "cfg", "cfg-"+mode+"-"+resp+"-"+st)
 		n := 8 + rng.Intn(28)
-		for i := 0; i < n; i++ {
+		for i := 0; i < n && !g.stop; i++ {
 			if g.stateless {
 				g.stepStateless()
 			} else {
